@@ -211,4 +211,23 @@ theorem tdiv_mul_bound (s per : Int) (hp : 0 < per) :
     generalize (-s / per) * per = m at *
     omega
 
+/-- `FT_MulFix` looks at the low 32 bits of its operands only. -/
+theorem mulFix_wrap_right (a b : Int) : FtCalc.mulFix a b = FtCalc.mulFix a (wrapI32 b) := by
+  unfold FtCalc.mulFix FtCalc.mulFixX8664
+  have : wrapI32 (wrapI32 b) = wrapI32 b := by unfold wrapI32; simp only []; split <;> split <;> omega
+  simp only [this]
+
+theorem mul_small (c s : Int) (hc : -131072 ≤ c ∧ c ≤ 131072) (hs : 0 ≤ s ∧ s ≤ 4194304) :
+    -8388608 ≤ Fixed.mul c s ∧ Fixed.mul c s ≤ 8388608 := by
+  unfold Fixed.mul
+  have h1 : c * s ≤ 131072 * 4194304 := by
+    have := Int.mul_le_mul hc.2 hs.2 hs.1 (by omega); omega
+  have h2 : -(131072 * 4194304) ≤ c * s := by
+    have := Int.mul_le_mul (show -c ≤ 131072 by omega) hs.2 hs.1 (by omega)
+    rw [Int.neg_mul] at this; omega
+  generalize c * s = q at *
+  simp only []
+  unfold wrapI32; simp only []
+  split <;> split <;> omega
+
 end FontVerif.C03
